@@ -265,11 +265,12 @@ theorem ensureEditor_ok (i : Inner) (tok now : Nat) (i' : Inner)
 
 /-- what a refused / read-only operation leaves behind -/
 def Quiet (w : World) (o : Out) : Prop :=
-  o.world.fs = w.fs ∧ o.world.inner.docs = w.inner.docs ∧ o.world.inner.audit = w.inner.audit ∧
+  o.world.fs = w.fs ∧ (o.world.inner.docs, o.world.inner.floor) = (w.inner.docs, w.inner.floor) ∧
+  o.world.inner.audit = w.inner.audit ∧
   ∀ e ∈ o.effects, e.isMutation = false
 
 theorem quiet_fail (w : World) (i : Inner) (e : Err) (effs : List Effect)
-    (hd : i.docs = w.inner.docs) (ha : i.audit = w.inner.audit)
+    (hd : (i.docs, i.floor) = (w.inner.docs, w.inner.floor)) (ha : i.audit = w.inner.audit)
     (he : ∀ x ∈ effs, x.isMutation = false) : Quiet w (fail { w with inner := i } e effs) :=
   ⟨rfl, hd, ha, he⟩
 
@@ -277,17 +278,20 @@ theorem quiet_fail' (w : World) (e : Err) (effs : List Effect)
     (he : ∀ x ∈ effs, x.isMutation = false) : Quiet w (fail w e effs) :=
   ⟨rfl, rfl, rfl, he⟩
 
-theorem prune_docs (i : Inner) (now : Nat) : (prune i now).docs = i.docs ∧ (prune i now).audit = i.audit :=
+theorem prune_docs (i : Inner) (now : Nat) :
+    ((prune i now).docs, (prune i now).floor) = (i.docs, i.floor) ∧ (prune i now).audit = i.audit :=
   ⟨rfl, rfl⟩
 
 theorem ensureSession_docs (i : Inner) (tok now : Nat) :
-    (ensureSession i tok now).1.docs = i.docs ∧ (ensureSession i tok now).1.audit = i.audit := by
+    ((ensureSession i tok now).1.docs, (ensureSession i tok now).1.floor) = (i.docs, i.floor) ∧
+    (ensureSession i tok now).1.audit = i.audit := by
   unfold ensureSession
   simp only
   split <;> exact ⟨rfl, rfl⟩
 
 theorem ensureEditor_docs (i : Inner) (tok now : Nat) :
-    (ensureEditor i tok now).1.docs = i.docs ∧ (ensureEditor i tok now).1.audit = i.audit := by
+    ((ensureEditor i tok now).1.docs, (ensureEditor i tok now).1.floor) = (i.docs, i.floor) ∧
+    (ensureEditor i tok now).1.audit = i.audit := by
   have h := ensureSession_docs i tok now
   unfold ensureEditor
   split
@@ -511,31 +515,32 @@ theorem readonly_ops (w : World) (op : Op) (h : op.mayMutate w = false) :
 /-! ## D. protocol invariant -/
 namespace Proto
 
-def verOf : Option Doc → Nat
-  | some e => e.version
-  | none => 0
-
-theorem curVer_eq (s : PState) : curVer s = verOf s.entry := by
-  unfold curVer verOf; cases s.entry <;> rfl
-
-/-- the tracked document advanced: the version did not decrease, and an unchanged version means an
-unchanged document -/
-def Adv (old : Option Doc) (new : Doc) : Prop :=
+/-- the tracked document advanced: the version did not decrease, an unchanged version means an
+unchanged document, and a document that starts being tracked is above the retired floor -/
+def Adv (old : Option Doc) (floor : Nat) (new : Doc) : Prop :=
   match old with
-  | none => 1 ≤ new.version
+  | none => floor < new.version
   | some e => e.version ≤ new.version ∧ (e.version = new.version → new = e)
 
-theorem Adv.ver {old : Option Doc} {new : Doc} (h : Adv old new) :
-    verOf old ≤ new.version ∧ (verOf old = new.version → old = some new) := by
-  cases old with
-  | none => simp only [Adv] at h; simp [verOf]; omega
-  | some e =>
+theorem Adv.ver {s : PState} {new : Doc} (h : Adv s.entry s.floor new) :
+    curVer s ≤ new.version ∧ (∀ e, s.entry = some e → e.version = new.version → new = e) ∧
+    (s.entry = none → s.floor < new.version) := by
+  cases he : s.entry with
+  | none =>
+    rw [he] at h
     simp only [Adv] at h
-    refine ⟨h.1, fun he => ?_⟩
-    simp only [verOf] at he
-    rw [h.2 he]
+    simp only [curVer, he]
+    exact ⟨by omega, by simp, fun _ => h⟩
+  | some e =>
+    rw [he] at h
+    simp only [Adv] at h
+    simp only [curVer, he]
+    refine ⟨h.1, ?_, by simp⟩
+    intro e' he' hv
+    cases he'
+    exact h.2 hv
 
-theorem syncDoc_content (e : Option Doc) (d : Content) : (syncDoc e d).content = d := by
+theorem syncDoc_content (e : Option Doc) (d : Content) (f : Nat) : (syncDoc e d f).content = d := by
   unfold syncDoc
   cases e with
   | none => rfl
@@ -545,14 +550,21 @@ theorem syncDoc_content (e : Option Doc) (d : Content) : (syncDoc e d).content =
     · rfl
     · rename_i h; simpa using h
 
-theorem syncDoc_adv (e : Option Doc) (d : Content) (hv : verOf e < u64Max) :
-    Adv e (syncDoc e d) ∧ (syncDoc e d).version ≤ verOf e + 1 := by
+theorem sync_adv (s : PState) (d : Content) (hv : curVer s < u64Max) :
+    Adv s.entry s.floor (syncDoc s.entry d (firstVersion s.floor)) ∧
+    (syncDoc s.entry d (firstVersion s.floor)).version ≤ curVer s + 1 := by
+  unfold curVer at hv ⊢
   unfold syncDoc
-  cases e with
-  | none => simp [Adv, verOf]
+  cases he : s.entry with
+  | none =>
+    rw [he] at hv
+    simp only at hv
+    simp only [Adv, firstVersion, satSucc, hv, if_true]
+    omega
   | some e =>
-    simp only [verOf] at hv
-    simp only [Adv, verOf]
+    rw [he] at hv
+    simp only at hv
+    simp only [Adv]
     split
     · simp only [satSucc, hv, if_true]
       refine ⟨⟨by omega, fun h => by omega⟩, by omega⟩
@@ -572,90 +584,121 @@ theorem lookupIssued_mem (l : List (Nat × Content)) (v : Nat) (c : Content)
       simp
     · exact List.mem_cons_of_mem _ (ih h)
 
-/-- every success found on disk exactly the content of the previous success (or the initial one) -/
-def chainOk : Content → List Success → Prop
-  | _, [] => True
-  | d, ev :: rest => ev.diskBefore = some d ∧ chainOk ev.content rest
+theorem lastContent_append (d : Content) (l : List Success) (ev : Success) :
+    lastContent d (l ++ [ev]) = ev.content := by
+  simp [lastContent]
 
 theorem chainOk_append (d : Content) (l : List Success) (ev : Success) :
     chainOk d (l ++ [ev]) ↔ chainOk d l ∧
-      ev.diskBefore = some (match l.getLast? with | some x => x.content | none => d) := by
+      (ev.diskBefore = some (lastContent d l) ∨ ev.diskBefore = none) := by
   induction l generalizing d with
-  | nil => simp [chainOk]
+  | nil => simp [chainOk, lastContent]
   | cons a rest ih =>
     simp only [List.cons_append, chainOk, ih, and_assoc]
-    cases rest with
-    | nil => simp
-    | cons b rest' =>
-      simp only [List.getLast?_cons_cons]
-      cases hgl : (b :: rest').getLast? with
-      | none => simp at hgl
-      | some x => simp
+    have : lastContent a.content rest = lastContent d (a :: rest) := by
+      unfold lastContent
+      cases rest with
+      | nil => simp
+      | cons b rest' =>
+        simp only [List.getLast?_cons_cons]
+        cases hgl : (b :: rest').getLast? with
+        | none => simp at hgl
+        | some x => rfl
+    rw [this]
 
-/-- The invariant of the versioned protocol after `n` steps, starting from disk content `d0`. -/
-structure Inv (d0 : Content) (s : PState) (n : Nat) : Prop where
-  ver_le : verOf s.entry ≤ 2 * n
+/-- The invariant of the protocol, starting from disk content `d0`; `b` bounds the version
+counters. -/
+structure Inv (d0 : Content) (s : PState) (b : Nat) : Prop where
+  bound : curVer s ≤ b ∧ s.floor ≤ b
   issued_ok : ∀ i v c, (v, c) ∈ (s.clients i).issued →
-    ∃ e, s.entry = some e ∧ v ≤ e.version ∧ (v = e.version → c = e.content)
+    (∀ e, s.entry = some e → v ≤ e.version ∧ (v = e.version → c = e.content)) ∧
+    (s.entry = none → v ≤ s.floor)
   pending_ok : ∀ i p, (s.clients i).pending = some p →
-    p.seenVersion ≤ verOf s.entry ∧ (verOf s.entry = p.seenVersion → s.disk = some p.disk) ∧
+    p.seenVersion ≤ curVer s ∧
+    (∀ e, s.entry = some e → e.version = p.seenVersion → s.disk = some p.disk) ∧
     (∀ c, p.base = some c → p.expected ≤ p.seenVersion ∧ (p.expected, c) ∈ (s.clients i).issued)
-  succ_ok : ∀ ev ∈ s.successes, ev.version = ev.expected + 1 ∧ ev.version ≤ verOf s.entry ∧
+  succ_ok : ∀ ev ∈ s.successes, ev.version = ev.expected + 1 ∧ ev.version ≤ curVer s ∧
     (∀ c, ev.base = some c → ev.diskBefore = some c)
   sorted : s.successes.Pairwise (fun a b => a.version < b.version)
-  disk_ok : s.disk = some (match s.successes.getLast? with
-    | some ev => ev.content
-    | none => d0)
+  disk_ok : ∀ c, s.disk = some c → c = lastContent d0 s.successes
   chain : chainOk d0 s.successes
 
 theorem inv_init (d0 : Content) : Inv d0 (init d0) 0 := by
-  refine ⟨by simp [init, verOf], ?_, ?_, ?_, ?_, ?_, ?_⟩ <;> simp [init, chainOk]
+  refine ⟨by simp [init, curVer], ?_, ?_, ?_, ?_, ?_, ?_⟩ <;> simp [init, chainOk, lastContent]
+
+theorem Inv.mono {d0 : Content} {s : PState} {b b' : Nat} (h : Inv d0 s b) (hb : b ≤ b') :
+    Inv d0 s b' :=
+  ⟨⟨by have := h.bound.1; omega, by have := h.bound.2; omega⟩, h.issued_ok, h.pending_ok, h.succ_ok,
+    h.sorted, h.disk_ok, h.chain⟩
+
+/-- every issued version is at most the current one -/
+theorem Inv.issued_le {d0 : Content} {s : PState} {b : Nat} (h : Inv d0 s b) (i v : Nat) (c : Content)
+    (hm : (v, c) ∈ (s.clients i).issued) : v ≤ curVer s := by
+  obtain ⟨h1, h2⟩ := h.issued_ok i v c hm
+  unfold curVer
+  cases he : s.entry with
+  | none => exact h2 he
+  | some e => exact (h1 e he).1
 
 /-- the tracked document advances; clients only gain the pair just issued and lose pendings -/
-theorem Inv.step_entry {d0 : Content} {s : PState} {n : Nat} (h : Inv d0 s n) (new : Doc)
-    (hadv : Adv s.entry new) (hv : new.version ≤ 2 * (n + 1)) (cl : Nat → Client)
+theorem Inv.step_entry {d0 : Content} {s : PState} {b : Nat} (h : Inv d0 s b) (new : Doc)
+    (hadv : Adv s.entry s.floor new) (hv : new.version ≤ b + 2) (cl : Nat → Client)
     (hiss : ∀ i v c, (v, c) ∈ (cl i).issued →
       (v, c) ∈ (s.clients i).issued ∨ (v = new.version ∧ c = new.content))
     (hpend : ∀ i p, (cl i).pending = some p → (s.clients i).pending = some p ∧
       ∀ v c, (v, c) ∈ (s.clients i).issued → (v, c) ∈ (cl i).issued) :
-    Inv d0 { s with entry := some new, clients := cl } (n + 1) := by
-  obtain ⟨hle, heq⟩ := hadv.ver
-  refine ⟨by simpa [verOf] using hv, ?_, ?_, ?_, h.sorted, h.disk_ok, h.chain⟩
+    Inv d0 { s with entry := some new, clients := cl } (b + 2) := by
+  obtain ⟨hle, heq, hnone⟩ := hadv.ver
+  refine ⟨⟨by simpa [curVer] using hv, by have := h.bound.2; simp only; omega⟩, ?_, ?_, ?_,
+    h.sorted, h.disk_ok, h.chain⟩
   · intro i v c hm
+    refine ⟨?_, by simp⟩
+    intro e' he'
+    simp only [Option.some.injEq] at he'
+    subst he'
     rcases hiss i v c hm with hm | ⟨rfl, rfl⟩
-    · obtain ⟨e, he, hve, hc⟩ := h.issued_ok i v c hm
-      refine ⟨new, rfl, ?_, ?_⟩
-      · have : verOf s.entry = e.version := by simp [he, verOf]
-        omega
-      · intro hvn
-        have hver : verOf s.entry = e.version := by simp [he, verOf]
-        have : s.entry = some new := heq (by omega)
-        rw [he] at this
-        cases this
-        exact hc hvn
-    · exact ⟨new, rfl, Nat.le_refl _, fun _ => rfl⟩
+    · have hvle := h.issued_le i v c hm
+      refine ⟨by omega, ?_⟩
+      intro hvn
+      obtain ⟨h1, h2⟩ := h.issued_ok i v c hm
+      cases he : s.entry with
+      | none => have := hnone he; have := h2 he; omega
+      | some e =>
+        obtain ⟨h3, h4⟩ := h1 e he
+        have hcur : curVer s = e.version := by simp [curVer, he]
+        have hne : new = e := heq e he (by omega)
+        rw [hne]
+        exact h4 (by rw [← hne]; exact hvn)
+    · exact ⟨Nat.le_refl _, fun _ => rfl⟩
   · intro i p hp
     obtain ⟨hp', hsub⟩ := hpend i p hp
     obtain ⟨h1, h2, h3⟩ := h.pending_ok i p hp'
-    refine ⟨by simp only [verOf]; omega, ?_, ?_⟩
-    · intro hcur
-      simp only [verOf] at hcur
-      have : s.entry = some new := heq (by omega)
-      apply h2
-      rw [this]; simp [verOf, hcur]
+    refine ⟨by simp only [curVer]; omega, ?_, ?_⟩
+    · intro e' he' hcur
+      simp only [Option.some.injEq] at he'
+      subst he'
+      cases he : s.entry with
+      | none =>
+        have := hnone he
+        have : curVer s = s.floor := by simp [curVer, he]
+        omega
+      | some e =>
+        have hcur' : curVer s = e.version := by simp [curVer, he]
+        have hne : new = e := heq e he (by omega)
+        exact h2 e he (by rw [← hne]; exact hcur)
     · intro c hc
       obtain ⟨h4, h5⟩ := h3 c hc
       exact ⟨h4, hsub _ _ h5⟩
   · intro ev hev
     obtain ⟨h1, h2, h3⟩ := h.succ_ok ev hev
-    exact ⟨h1, by simp only [verOf]; omega, h3⟩
+    exact ⟨h1, by simp only [curVer]; omega, h3⟩
 
 /-- a client starts an operation: only a pending read is added -/
-theorem Inv.step_begin {d0 : Content} {s : PState} {n : Nat} (h : Inv d0 s n) (i : Nat) (p : Pending)
-    (d : Content) (hd : s.disk = some d) (hpd : p.disk = d) (hseen : p.seenVersion = verOf s.entry)
+theorem Inv.step_begin {d0 : Content} {s : PState} {b : Nat} (h : Inv d0 s b) (i : Nat) (p : Pending)
+    (d : Content) (hd : s.disk = some d) (hpd : p.disk = d) (hseen : p.seenVersion = curVer s)
     (hbase : ∀ c, p.base = some c → (p.expected, c) ∈ (s.clients i).issued) :
-    Inv d0 { s with clients := upd s.clients i { (s.clients i) with pending := some p } } (n + 1) := by
-  refine ⟨by have := h.ver_le; simp only; omega, ?_, ?_, h.succ_ok, h.sorted, h.disk_ok, h.chain⟩
+    Inv d0 { s with clients := upd s.clients i { (s.clients i) with pending := some p } } b := by
+  refine ⟨h.bound, ?_, ?_, h.succ_ok, h.sorted, h.disk_ok, h.chain⟩
   · intro j v c hm
     simp only [upd] at hm
     split at hm
@@ -669,61 +712,278 @@ theorem Inv.step_begin {d0 : Content} {s : PState} {n : Nat} (h : Inv d0 s n) (i
       simp only [Option.some.injEq] at hq
       subst hq
       simp only [if_true]
-      refine ⟨by omega, fun _ => by rw [hd, hpd], ?_⟩
+      refine ⟨by show p.seenVersion ≤ curVer s; omega, fun _ _ _ => by rw [hd, hpd], ?_⟩
       intro c hc
       have hm := hbase c hc
-      obtain ⟨e, he, hve, _⟩ := h.issued_ok j _ c hm
-      refine ⟨?_, hm⟩
-      rw [hseen, he]; simpa [verOf] using hve
+      have := h.issued_le j _ c hm
+      exact ⟨by omega, hm⟩
     · rename_i hj
       simp only [hj, if_false]
       exact h.pending_ok j q hq
 
-theorem step_inv {d0 : Content} {s : PState} {n : Nat} (h : Inv d0 s n) (st : Step)
-    (hst : st.versioned = true) (hn : 2 * n + 2 < u64Max) : Inv d0 (next s st) (n + 1) := by
-  have hvlt : verOf s.entry < u64Max := by have := h.ver_le; omega
+theorem curVer_le_retired (s : PState) : curVer s ≤ retired s ∧ s.floor ≤ retired s := by
+  unfold curVer retired
+  cases s.entry with
+  | none => simp
+  | some e => simp only; omega
+
+theorem retired_le (s : PState) (b : Nat) (h1 : curVer s ≤ b) (h2 : s.floor ≤ b) : retired s ≤ b := by
+  unfold curVer at h1
+  unfold retired
+  cases he : s.entry with
+  | none => exact h2
+  | some e => rw [he] at h1; simp only at h1 ⊢; omega
+
+/-- the tracked document is retired (`delete`, `evict`); the file stays or goes -/
+theorem Inv.step_drop {d0 : Content} {s : PState} {b : Nat} (h : Inv d0 s b) (dk : Option Content)
+    (hdk : ∀ c, dk = some c → s.disk = some c) :
+    Inv d0 { s with disk := dk, entry := none, floor := retired s } b := by
+  obtain ⟨hc, hf⟩ := curVer_le_retired s
+  have hr := retired_le s b h.bound.1 h.bound.2
+  refine ⟨⟨by simpa [curVer] using hr, hr⟩, ?_, ?_, ?_, h.sorted, ?_, h.chain⟩
+  · intro i v c hm
+    refine ⟨by simp, fun _ => ?_⟩
+    have := h.issued_le i v c hm
+    simp only; omega
+  · intro i p hp
+    obtain ⟨h1, _, h3⟩ := h.pending_ok i p hp
+    exact ⟨by simp only [curVer]; omega, by simp, h3⟩
+  · intro ev hev
+    obtain ⟨h1, h2, h3⟩ := h.succ_ok ev hev
+    exact ⟨h1, by simp only [curVer]; omega, h3⟩
+  · intro c hc
+    exact h.disk_ok c (hdk c hc)
+
+/-- a document of another file is retired: only the shared floor moves -/
+theorem Inv.step_floor {d0 : Content} {s : PState} {b : Nat} (h : Inv d0 s b) (k : Nat) :
+    Inv d0 { s with floor := max s.floor k } (b + (k + 2)) := by
+  have hcur : curVer { s with floor := max s.floor k } ≤ max (curVer s) k ∧
+      curVer s ≤ curVer { s with floor := max s.floor k } := by
+    unfold curVer
+    cases s.entry with
+    | none => simp only; omega
+    | some e => simp only; omega
+  refine ⟨⟨by have := h.bound.1; omega, by have := h.bound.2; simp only; omega⟩, ?_, ?_, ?_,
+    h.sorted, h.disk_ok, h.chain⟩
+  · intro i v c hm
+    obtain ⟨h1, h2⟩ := h.issued_ok i v c hm
+    exact ⟨h1, fun hn => by have := h2 hn; simp only; omega⟩
+  · intro i p hp
+    obtain ⟨h1, h2, h3⟩ := h.pending_ok i p hp
+    exact ⟨by omega, h2, h3⟩
+  · intro ev hev
+    obtain ⟨h1, h2, h3⟩ := h.succ_ok ev hev
+    exact ⟨h1, by omega, h3⟩
+
+/-- a successful write `ev` of content `new` at version `v` above everything issued so far
+(`apply_source`, `rename_symbol`, `create_entry`) -/
+theorem Inv.step_write {d0 : Content} {s : PState} {b : Nat} (h : Inv d0 s b) (i v : Nat)
+    (new : Content) (fl : Nat) (ci : Client) (ev : Success)
+    (hv : curVer s < v) (hvb : v ≤ b + 2) (hfl : fl ≤ b + 2)
+    (hci : ci.issued = (v, new) :: (s.clients i).issued)
+    (hpe : ∀ p, ci.pending = some p → (s.clients i).pending = some p)
+    (hev1 : ev.version = v) (hev2 : ev.version = ev.expected + 1) (hev3 : ev.content = new)
+    (hev4 : ev.diskBefore = s.disk) (hev5 : ∀ c, ev.base = some c → s.disk = some c) :
+    Inv d0 { s with disk := some new, entry := some { content := new, version := v }, floor := fl
+                    clients := upd s.clients i ci
+                    successes := s.successes ++ [ev] } (b + 2) := by
+  refine ⟨⟨by simpa [curVer] using hvb, hfl⟩, ?_, ?_, ?_, ?_, ?_, ?_⟩
+  · intro j w c hm
+    refine ⟨?_, by simp⟩
+    intro e' he'
+    simp only [Option.some.injEq] at he'
+    subst he'
+    have hold : (w, c) ∈ (s.clients j).issued → w < v := by
+      intro hm'
+      have := h.issued_le j w c hm'
+      omega
+    simp only [upd] at hm
+    split at hm
+    · rename_i hj; subst hj
+      rw [hci] at hm
+      simp only [List.mem_cons, Prod.mk.injEq] at hm
+      rcases hm with ⟨rfl, rfl⟩ | hm
+      · exact ⟨Nat.le_refl _, fun _ => rfl⟩
+      · have := hold hm
+        exact ⟨by simp only; omega, fun hw => by simp only at hw; omega⟩
+    · have := hold hm
+      exact ⟨by simp only; omega, fun hw => by simp only at hw; omega⟩
+  · intro j q hq
+    have hq' : (s.clients j).pending = some q ∧
+        ∀ w c, (w, c) ∈ (s.clients j).issued →
+          (w, c) ∈ ((upd s.clients i ci) j).issued := by
+      simp only [upd] at hq ⊢
+      split at hq
+      · rename_i hj; subst hj
+        simp only [if_true]
+        exact ⟨hpe q hq, fun w c hm => by rw [hci]; exact List.mem_cons_of_mem _ hm⟩
+      · rename_i hj
+        simp only [hj, if_false]
+        exact ⟨hq, fun w c hm => hm⟩
+    obtain ⟨h1, h2, h3⟩ := h.pending_ok j q hq'.1
+    refine ⟨by simp only [curVer]; omega, ?_, ?_⟩
+    · intro e' he' hcur
+      simp only [Option.some.injEq] at he'
+      subst he'
+      simp only at hcur
+      omega
+    · intro c hc
+      obtain ⟨h4, h5⟩ := h3 c hc
+      exact ⟨h4, hq'.2 _ _ h5⟩
+  · intro e hev
+    simp only [List.mem_append, List.mem_singleton] at hev
+    rcases hev with hev | rfl
+    · obtain ⟨h1, h2, h3⟩ := h.succ_ok e hev
+      exact ⟨h1, by simp only [curVer]; omega, h3⟩
+    · refine ⟨hev2, by simp [curVer, hev1], ?_⟩
+      intro c hc
+      rw [hev4]
+      exact hev5 c hc
+  · simp only
+    rw [List.pairwise_append]
+    refine ⟨h.sorted, by simp, ?_⟩
+    intro a ha x hx
+    simp only [List.mem_singleton] at hx
+    subst hx
+    obtain ⟨_, h2, _⟩ := h.succ_ok a ha
+    omega
+  · intro c hc
+    simp only [Option.some.injEq] at hc
+    rw [lastContent_append, hev3, hc]
+  · simp only
+    rw [chainOk_append]
+    refine ⟨h.chain, ?_⟩
+    rw [hev4]
+    cases hd : s.disk with
+    | none => exact Or.inr rfl
+    | some c => exact Or.inl (by rw [h.disk_ok c hd])
+
+/-- the locked section of `apply_source` for a request whose read `p.disk` is not newer than the
+tracked state it saw; `hbase`: an honest request that passes the check finds its base on disk -/
+theorem applyLocked_inv {d0 : Content} {s : PState} {b : Nat} (h : Inv d0 s b) (i : Nat) (p : Pending)
+    (hb : b + 2 < u64Max)
+    (hbase : ∀ c, p.base = some c →
+      (syncDoc s.entry p.disk (firstVersion s.floor)).version = p.expected → s.disk = some c) :
+    Inv d0 (applyLocked s i p) (b + 2) := by
+  have hvlt : curVer s < u64Max := by have := h.bound.1; omega
+  obtain ⟨hadv, hle⟩ := sync_adv s p.disk hvlt
+  obtain ⟨hle', _, _⟩ := hadv.ver
+  have hbd := h.bound
+  by_cases hexp : (syncDoc s.entry p.disk (firstVersion s.floor)).version = p.expected
+  · -- success
+    have hsv : (syncDoc s.entry p.disk (firstVersion s.floor)).version < u64Max := by omega
+    have hsat : satSucc (syncDoc s.entry p.disk (firstVersion s.floor)).version = p.expected + 1 := by
+      simp only [satSucc, hsv, if_true]; omega
+    have happ : applyDoc s.entry p.disk p.expected p.new (firstVersion s.floor) =
+        ({ content := p.new, version := p.expected + 1 }, some (p.expected + 1)) := by
+      rw [hexp] at hsat
+      simp [applyDoc, hexp, hsat]
+    unfold applyLocked
+    rw [happ]
+    simp only
+    exact h.step_write i (p.expected + 1) p.new s.floor
+      { issued := (p.expected + 1, p.new) :: (s.clients i).issued, pending := none }
+      { client := i, expected := p.expected, version := p.expected + 1, content := p.new
+        base := p.base, diskBefore := s.disk }
+      (by omega) (by omega) (by omega) rfl (by simp) rfl rfl rfl rfl
+      (fun c hc => hbase c hc hexp)
+  · -- conflict: the synced entry stays
+    have happ : applyDoc s.entry p.disk p.expected p.new (firstVersion s.floor) =
+        (syncDoc s.entry p.disk (firstVersion s.floor), none) := by
+      simp [applyDoc, hexp]
+    unfold applyLocked
+    rw [happ]
+    simp only
+    refine h.step_entry _ hadv (by omega) _ ?_ ?_
+    · intro j v c hm
+      simp only [upd] at hm
+      split at hm
+      · rename_i hj; subst hj; exact Or.inl hm
+      · exact Or.inl hm
+    · intro j q hq
+      simp only [upd] at hq
+      split at hq
+      · simp at hq
+      · rename_i hj
+        refine ⟨hq, fun v c hm => ?_⟩
+        simp only [upd, hj, if_false]; exact hm
+
+theorem step_inv {d0 : Content} {s : PState} {b : Nat} (h : Inv d0 s b) (st : Step)
+    (hst : st.covered = true) (hn : b + st.cost < u64Max) : Inv d0 (next s st) (b + st.cost) := by
+  have hbd := h.bound
   cases st with
-  | delete => simp [Step.versioned] at hst
-  | create _ => simp [Step.versioned] at hst
-  | symRename _ _ => simp [Step.versioned] at hst
-  | aliasWrite _ => simp [Step.versioned] at hst
-  | splitCheck _ => simp [Step.versioned] at hst
-  | splitWrite _ => simp [Step.versioned] at hst
-  | splitCommit _ => simp [Step.versioned] at hst
+  | aliasWrite _ => simp [Step.covered] at hst
+  | splitCheck _ => simp [Step.covered] at hst
+  | splitWrite _ => simp [Step.covered] at hst
+  | splitCommit _ => simp [Step.covered] at hst
+  | retireOther k => exact h.step_floor k
+  | delete => exact (h.step_drop none (by simp)).mono (by simp [Step.cost])
+  | evict => exact (h.step_drop s.disk (fun _ hc => hc)).mono (by simp [Step.cost])
   | override t =>
-    obtain ⟨hadv, hle⟩ := syncDoc_adv s.entry t hvlt
-    have := h.ver_le
+    simp only [Step.cost] at hn ⊢
+    obtain ⟨hadv, hle⟩ := sync_adv s t (by omega)
     exact h.step_entry _ hadv (by omega) s.clients (fun i v c hm => Or.inl hm)
       (fun i p hp => ⟨hp, fun _ _ hm => hm⟩)
   | syncAll =>
+    simp only [Step.cost] at hn ⊢
     simp only [next]
     split
     · rename_i d hd
-      obtain ⟨hadv, hle⟩ := syncDoc_adv s.entry d hvlt
-      have := h.ver_le
+      obtain ⟨hadv, hle⟩ := sync_adv s d (by omega)
       exact h.step_entry _ hadv (by omega) s.clients (fun i v c hm => Or.inl hm)
         (fun i p hp => ⟨hp, fun _ _ hm => hm⟩)
-    · exact ⟨by have := h.ver_le; omega, h.issued_ok, h.pending_ok, h.succ_ok, h.sorted, h.disk_ok, h.chain⟩
+    · exact h.mono (by omega)
   | beginOpen i =>
+    simp only [Step.cost] at hn ⊢
     simp only [next]
     split
     · rename_i d hd hp
-      exact h.step_begin i _ d hd rfl (by simp [curVer_eq]) (by simp)
-    · exact ⟨by have := h.ver_le; omega, h.issued_ok, h.pending_ok, h.succ_ok, h.sorted, h.disk_ok, h.chain⟩
+      exact (h.step_begin i _ d hd rfl rfl (by simp)).mono (by omega)
+    · exact h.mono (by omega)
   | beginApply i expected new =>
+    simp only [Step.cost] at hn ⊢
     simp only [next]
     split
     · rename_i d hd hp
-      exact h.step_begin i _ d hd rfl (by simp [curVer_eq])
-        (fun c hc => lookupIssued_mem _ _ _ hc)
-    · exact ⟨by have := h.ver_le; omega, h.issued_ok, h.pending_ok, h.succ_ok, h.sorted, h.disk_ok, h.chain⟩
-  | finish i =>
+      exact (h.step_begin i _ d hd rfl rfl (fun c hc => lookupIssued_mem _ _ _ hc)).mono (by omega)
+    · exact h.mono (by omega)
+  | create i payload =>
+    simp only [Step.cost] at hn ⊢
     simp only [next]
     split
-    · exact ⟨by have := h.ver_le; omega, h.issued_ok, h.pending_ok, h.succ_ok, h.sorted, h.disk_ok, h.chain⟩
+    · rename_i hd hp
+      obtain ⟨hc, hf⟩ := curVer_le_retired s
+      have hr := retired_le s b hbd.1 hbd.2
+      have hfv : firstVersion (retired s) = retired s + 1 := by
+        simp only [firstVersion, satSucc]
+        rw [if_pos (by omega)]
+      rw [hfv]
+      exact h.step_write i (retired s + 1) payload (retired s)
+        { (s.clients i) with issued := (retired s + 1, payload) :: (s.clients i).issued }
+        { client := i, expected := retired s, version := retired s + 1, content := payload
+          base := none, diskBefore := none }
+        (by omega) (by omega) (by omega) rfl (fun p hp' => hp') rfl rfl rfl (by simp [hd]) (by simp)
+    · exact h.mono (by omega)
+  | symRename i buffer result =>
+    simp only [Step.cost] at hn ⊢
+    simp only [next]
+    split
+    · rename_i d hd hp
+      split
+      · obtain ⟨hadv, hle⟩ := sync_adv s d (by omega)
+        exact h.step_entry _ hadv (by omega) s.clients (fun i v c hm => Or.inl hm)
+          (fun i p hp => ⟨hp, fun _ _ hm => hm⟩)
+      · exact applyLocked_inv h i _ (by omega) (fun c hc _ => by
+          simp only [Option.some.injEq] at hc
+          rw [hd, hc])
+    · exact h.mono (by omega)
+  | finish i =>
+    simp only [Step.cost] at hn ⊢
+    simp only [next]
+    split
+    · exact h.mono (by omega)
     · rename_i p hp
-      obtain ⟨hadv, hle⟩ := syncDoc_adv s.entry p.disk hvlt
-      have hver := h.ver_le
+      obtain ⟨hadv, hle⟩ := sync_adv s p.disk (by omega)
       split
       · -- locked section of open_source
         refine h.step_entry _ hadv (by omega) _ ?_ ?_
@@ -733,7 +993,7 @@ theorem step_inv {d0 : Content} {s : PState} {n : Nat} (h : Inv d0 s n) (st : St
           · rename_i hj; subst hj
             simp only [List.mem_cons, Prod.mk.injEq] at hm
             rcases hm with ⟨rfl, rfl⟩ | hm
-            · exact Or.inr ⟨rfl, (syncDoc_content _ _).symm⟩
+            · exact Or.inr ⟨rfl, (syncDoc_content _ _ _).symm⟩
             · exact Or.inl hm
           · exact Or.inl hm
         · intro j q hq
@@ -744,115 +1004,37 @@ theorem step_inv {d0 : Content} {s : PState} {n : Nat} (h : Inv d0 s n) (st : St
             refine ⟨hq, fun v c hm => ?_⟩
             simp only [upd, hj, if_false]; exact hm
       · -- locked section of apply_source
-        by_cases hexp : (syncDoc s.entry p.disk).version = p.expected
-        · -- success
-          obtain ⟨hle', heq'⟩ := hadv.ver
-          have hsv : (syncDoc s.entry p.disk).version < u64Max := by omega
-          have hsat : satSucc (syncDoc s.entry p.disk).version = p.expected + 1 := by
-            simp only [satSucc, hsv, if_true]; omega
-          have happ : applyDoc s.entry p.disk p.expected p.new =
-              ({ content := p.new, version := p.expected + 1 }, some (p.expected + 1)) := by
-            rw [hexp] at hsat
-            simp [applyDoc, hexp, hsat]
-          unfold applyLocked
-          rw [happ]
-          simp only
-          obtain ⟨hp1, hp2, hp3⟩ := h.pending_ok i p hp
-          refine ⟨?_, ?_, ?_, ?_, ?_, ?_, ?_⟩
-          · simp only [verOf]; omega
-          · intro j v c hm
-            simp only [upd] at hm
-            refine ⟨_, rfl, ?_⟩
-            have hold : (v, c) ∈ (s.clients j).issued → v ≤ p.expected := by
-              intro hm'
-              obtain ⟨e, he, hve, _⟩ := h.issued_ok j v c hm'
-              have : verOf s.entry = e.version := by simp [he, verOf]
-              omega
-            split at hm
-            · rename_i hj; subst hj
-              simp only [List.mem_cons, Prod.mk.injEq] at hm
-              rcases hm with ⟨rfl, rfl⟩ | hm
-              · exact ⟨Nat.le_refl _, fun _ => rfl⟩
-              · have := hold hm
-                exact ⟨by simp only; omega, fun hv => by simp only at hv; omega⟩
-            · have := hold hm
-              exact ⟨by simp only; omega, fun hv => by simp only at hv; omega⟩
-          · intro j q hq
-            simp only [upd] at hq
-            split at hq
-            · simp at hq
-            · rename_i hj
-              obtain ⟨h1, h2, h3⟩ := h.pending_ok j q hq
-              simp only [verOf]
-              refine ⟨by omega, fun hv => by omega, ?_⟩
-              intro c hc
-              obtain ⟨h4, h5⟩ := h3 c hc
-              refine ⟨h4, ?_⟩
-              simp only [upd, hj, if_false]; exact h5
-          · intro ev hev
-            simp only [List.mem_append, List.mem_singleton] at hev
-            rcases hev with hev | rfl
-            · obtain ⟨h1, h2, h3⟩ := h.succ_ok ev hev
-              exact ⟨h1, by simp only [verOf]; omega, h3⟩
-            · refine ⟨rfl, by simp [verOf], ?_⟩
-              intro c hc
-              -- the honest writer: its base is the tracked content, and the disk has not moved
-              obtain ⟨hb1, hb2⟩ := hp3 c hc
-              obtain ⟨e, he, hve, hce⟩ := h.issued_ok i _ c hb2
-              have hve' : verOf s.entry = e.version := by simp [he, verOf]
-              have hsame : s.entry = some (syncDoc s.entry p.disk) := heq' (by omega)
-              have hee : syncDoc s.entry p.disk = e := by
-                have h' := hsame
-                rw [he] at h'
-                rw [he]
-                exact (Option.some.inj h').symm
-              have hc' : c = e.content := hce (by rw [← hee]; omega)
-              have hdisk : s.disk = some p.disk := hp2 (by omega)
-              simp only
-              rw [hdisk, hc', ← hee, syncDoc_content]
-          · simp only
-            rw [List.pairwise_append]
-            refine ⟨h.sorted, by simp, ?_⟩
-            intro a ha b hb
-            simp only [List.mem_singleton] at hb
-            subst hb
-            obtain ⟨_, h2, _⟩ := h.succ_ok a ha
-            simp only; omega
-          · simp
-          · simp only
-            rw [chainOk_append]
-            exact ⟨h.chain, h.disk_ok⟩
-        · -- conflict: the synced entry stays
-          have happ : applyDoc s.entry p.disk p.expected p.new = (syncDoc s.entry p.disk, none) := by
-            simp [applyDoc, hexp]
-          unfold applyLocked
-          rw [happ]
-          simp only
-          refine h.step_entry _ hadv (by omega) _ ?_ ?_
-          · intro j v c hm
-            simp only [upd] at hm
-            split at hm
-            · rename_i hj; subst hj; exact Or.inl hm
-            · exact Or.inl hm
-          · intro j q hq
-            simp only [upd] at hq
-            split at hq
-            · simp at hq
-            · rename_i hj
-              refine ⟨hq, fun v c hm => ?_⟩
-              simp only [upd, hj, if_false]; exact hm
+        refine applyLocked_inv h i p (by omega) ?_
+        intro c hc hexp
+        -- the honest writer: its base is the tracked content, and the disk has not moved
+        obtain ⟨hp1, hp2, hp3⟩ := h.pending_ok i p hp
+        obtain ⟨hb1, hb2⟩ := hp3 c hc
+        obtain ⟨hi1, hi2⟩ := h.issued_ok i _ c hb2
+        obtain ⟨hle', heq', hnone'⟩ := hadv.ver
+        cases he : s.entry with
+        | none =>
+          have := hi2 he
+          have := hnone' he
+          omega
+        | some e =>
+          obtain ⟨hve, hce⟩ := hi1 e he
+          have hcur : curVer s = e.version := by simp [curVer, he]
+          have hee : syncDoc s.entry p.disk (firstVersion s.floor) = e := heq' e he (by omega)
+          have hc' : c = e.content := hce (by omega)
+          have hdisk : s.disk = some p.disk := hp2 e he (by omega)
+          rw [hdisk, hc', ← hee, syncDoc_content]
 
-theorem run_inv {d0 : Content} (tr : List Step) : ∀ (s : PState) (n : Nat), Inv d0 s n →
-    (∀ st ∈ tr, st.versioned = true) → 2 * (n + tr.length) + 2 < u64Max →
-    Inv d0 (run s tr) (n + tr.length) := by
+theorem run_inv {d0 : Content} (tr : List Step) : ∀ (s : PState) (b : Nat), Inv d0 s b →
+    (∀ st ∈ tr, st.covered = true) → b + traceCost tr < u64Max →
+    Inv d0 (run s tr) (b + traceCost tr) := by
   induction tr with
-  | nil => intro s n h _ _; simpa [run] using h
+  | nil => intro s b h _ _; simpa [run, traceCost] using h
   | cons st rest ih =>
-    intro s n h hv hn
-    simp only [List.length_cons] at hn ⊢
+    intro s b h hv hn
+    simp only [traceCost] at hn ⊢
     have h1 := step_inv h st (hv st (by simp)) (by omega)
-    have := ih (next s st) (n + 1) h1 (fun x hx => hv x (by simp [hx])) (by omega)
-    simpa [run, Nat.add_assoc, Nat.add_comm 1] using this
+    have := ih (next s st) (b + st.cost) h1 (fun x hx => hv x (by simp [hx])) (by omega)
+    simpa [run, Nat.add_assoc] using this
 
 /-- two honest writers race; the loser re-opens and writes again -/
 def raceTrace : List Step :=
@@ -860,15 +1042,22 @@ def raceTrace : List Step :=
    .beginApply 0 1 "A".toList, .beginApply 1 1 "B".toList, .finish 0, .finish 1,
    .beginOpen 1, .finish 1, .beginApply 1 4 "B2".toList, .finish 1]
 
-/-- witness of the open finding C19-version-reuse -/
+/-- witness of the repaired finding C19-version-reuse: client 0 holds a snapshot (v1) from before
+the deletion, a document of another file is retired in between, client 1 re-creates the file;
+client 0's save is refused, re-opens and saves on the new document -/
 def reuseTrace : List Step :=
   [.beginOpen 0, .finish 0, .beginOpen 1, .finish 1, .beginApply 1 1 "B1".toList, .finish 1,
-   .delete, .create "B2".toList, .beginApply 0 1 "A".toList, .finish 0]
+   .delete, .retireOther 4, .create 1 "B2".toList, .beginApply 0 1 "A".toList, .finish 0,
+   .beginOpen 0, .finish 0, .beginApply 0 5 "A2".toList, .finish 0]
 
-/-- witness of the open finding C19-rename-symbol-bypass -/
+/-- witness of the repaired finding C19-rename-symbol-bypass: client 0's `rename_symbol` on the
+stale buffer `v0` is refused; with the buffer the file holds it goes through on `B1`, and client
+1's save based on the text before the rename is refused -/
 def symRenameTrace : List Step :=
   [.beginOpen 0, .finish 0, .beginOpen 1, .finish 1, .beginApply 1 1 "B1".toList, .finish 1,
-   .symRename (some "v0".toList) "renamed(v0)".toList]
+   .symRename 0 (some "v0".toList) "renamed(v0)".toList,
+   .symRename 0 (some "B1".toList) "renamed(B1)".toList,
+   .beginApply 1 2 "B2".toList, .finish 1]
 
 /-- witness of the open finding C19-alias-keys: the other writer's success falls between client
 0's unlocked read and its locked section -/
